@@ -6,7 +6,8 @@ from ..core import Machinery
 
 OLD, NEW = "v1.2.3-beta", "v1.2.4-beta"
 VP = "vMAJOR.MINOR.PATCH[-TAG]"
-HOSTILE = ["'", '"', "\\", " ", "100%", "%%", "%(asctime)s", "$HOME", "`id`", "-", "--amend", "\n", "é", "e\u0301", "\u212b", "☃", ";", "&&", "|", "#", "%s", "~", "*", "(", ")", "!", "\t", "''", "' --amend '", "$(x)"]
+HOSTILE = ["'", '"', "\\", " ", "100%", "%%", "%(asctime)s", "$HOME", "`id`", "-", "--amend", "\n", "é", "e\u0301", "\u212b", "☃", ";", "&&", "|", "#", "%s", "~", "*", "(", ")", "!", "\t", "''", "' --amend '", "$(x)",
+           "\\n", "C:\\new_dir\\notes", "\\t", "\\\\n", "\\x41", "\\u00e9", "\\0"]       # escape sequences as literal text: a backslash and a letter
 WORDS = ["bump", "version", "release", "to", "from", "OLD", "NEW", "xOLD", "NEWx", "{new_version}", "{old_version}", "{new_version_pep440}", "{old_version_pep440}", "{{", "}}", "v"]
 
 
